@@ -1242,8 +1242,15 @@ impl<'a> Exec<'a> {
         let entry = self.snapshot_entry(arena);
         let inner_layout = inner.map(|(s, a)| Layout::from_size_align(s as usize, a as usize).unwrap());
         self.dirty_free = true;
+        crate::facade::INNER_BLOCK.with(|c| c.set(None));
         let r = arena.d_alloc_try_with(mutable, ok, inner_layout, try_);
         self.model.last_returned = None;
+        // what the closure allocated through the arena is an ordinary live block from now on
+        if let Some((p, size, align)) = crate::facade::INNER_BLOCK.with(|c| c.take()) {
+            let b = self.new_block(NonNull::new(p as *mut u8).unwrap(), size, align, 0);
+            unsafe { fill(&b) };
+            self.model.last_returned = None;
+        }
         match r {
             Ok(blk) => {
                 if !ok {
@@ -1258,7 +1265,6 @@ impl<'a> Exec<'a> {
                         }
                     }
                 }
-                // the inner allocation of the closure (if any) is leaked memory nobody owns; the value block is live
                 let b = self.new_block(blk.ptr, blk.len, blk.align, 0);
                 unsafe { fill(&b) };
             }
@@ -1671,6 +1677,20 @@ impl<'a> Exec<'a> {
                 if !granted {
                     msg = Some(format!("block #{} {:#x}+{} is not inside memory currently granted by the base allocator", b.id, b.addr(), b.size));
                     break;
+                }
+                // a live block never lies in memory the arena considers free: not in the free part of its chunk and
+                // not in a chunk after the current one (that memory will be handed out again)
+                if let (Some(cur_idx), Some(k)) = (st.current_index(), st.fwd.iter().position(|c| b.addr() >= c.content_start && b.addr() + b.size <= c.content_end)) {
+                    if k > cur_idx {
+                        msg = Some(format!("live block #{} {:#x}+{} lies in chunk {k}, after the current chunk {cur_idx}: the arena treats that chunk as unused", b.id, b.addr(), b.size));
+                        break;
+                    }
+                    let c = &st.fwd[k];
+                    let ok = if cfg.up { b.addr() + b.size <= c.pos } else { b.addr() >= c.pos };
+                    if !ok {
+                        msg = Some(format!("live block #{} {:#x}+{} reaches into the free part of its chunk (bump position {:#x}, bumping {})", b.id, b.addr(), b.size, c.pos, if cfg.up { "upwards" } else { "downwards" }));
+                        break;
+                    }
                 }
                 for o in &blocks[i + 1..] {
                     if o.size > 0 && b.addr() < o.addr() + o.size && o.addr() < b.addr() + b.size {
